@@ -28,7 +28,7 @@ def ctype(T: dict):
     if k in _SCALAR:
         return _SCALAR[k]
     if k == 'list':
-        return t.List[ctype(T['e'])]
+        return list[(ctype(T['e']),)]        # (not typing.List[...]: typing's cache would conflate Union member orders)
     if k == 'union':
         return t.Union[tuple(ctype(a) for a in T['alts'])]
     if k == 'ann':
@@ -233,7 +233,8 @@ def _events_for(progs: list, base: int, step: int, tier: str):
         U_IF = {'k': 'union', 'alts': [{'k': 'int'}, {'k': 'float'}]}
         U_FI = {'k': 'union', 'alts': [{'k': 'float'}, {'k': 'int'}]}
         # (the two unions are equal for typing, not for pane: the left-most accepting member wins)
-        for args in ([{'k': 'int'}], [{'k': 'int'}, {'k': 'str'}], [{'k': 'str'}], [U_IF], [U_FI]):
+        L_IF, L_FI = {'k': 'list', 'e': U_IF}, {'k': 'list', 'e': U_FI}
+        for args in ([{'k': 'int'}], [{'k': 'int'}, {'k': 'str'}], [{'k': 'str'}], [U_IF], [U_FI], [L_IF], [L_FI]):
             try:
                 sub = cls[tuple(ctype(a) for a in args)]
                 so = 'ok'
